@@ -4,6 +4,7 @@ import re
 from lib import cfg
 from rules import common
 
+CRATES = ("agdb",)
 EXPLANATION = (
     "Static analysis by exhaustive table extraction (HIR match tables + MIR cut-sets): (R15a) SearchControl::and/or "
     "9-row tables equal the documented truth tables (also cross-read from the reference documentation); (R15b) "
